@@ -74,6 +74,7 @@ def rules(ck, P):
     bld = [b for b in P.bodies if b["q"].endswith("vectortiles_update_properties::Operation::build")]
     if ck.anchor("E-COMP", "Operation::build", bld, 1):
         b = bld[0]
+        comp.stage_installed(ck, "R-NAMED-LAYER", "update_properties", b)
         st = [n for n in ir.walk_nodes(b["body"]) if n.get("k") == "struct" and (n.get("q") or "").endswith("::Runner")]
         okr = False
         if st:
